@@ -1,12 +1,42 @@
 /-
-  CmdCliff.lean — driver commands (stub; owned by the group that builds the corresponding model).
+  CmdCliff.lean — driver commands for the single-qubit Clifford library model (C20).
 -/
+import GraphiqModel.Model.Clifford1
 import Driver.Proto
 namespace Graphiq.CmdCliff
-open Graphiq Graphiq.Proto
+open Graphiq Graphiq.Proto Graphiq.Cliff
+
+def wordOf (s : String) : Option (List Gen) := (listOf s).mapM Gen.ofName
+def showWord (w : List Gen) : String := if w.isEmpty then "-" else String.intercalate "," (w.map Gen.name)
+
+def showM (m : M2) : String :=
+  String.intercalate ";" (m.entries.map fun e => s!"{e.re}:{e.im}")
+
+def simplifyCmd (a : Args) : String :=
+  match wordOf (get a "w") with
+  | none => "err value"
+  | some w =>
+    match simplify w with
+    | none => "err value"
+    | some m => s!"ok g={showWord m} prod={showM (prodW w)}"
+
+def all24Cmd : String :=
+  "ok lists=" ++ String.intercalate "|" (all24.map showWord)
+
+/-- find a member for an explicit Gaussian-integer matrix `m=re:im;re:im;re:im;re:im` -/
+def findCmd (a : Args) : String :=
+  match (splitChar ';' (get a "m")).map (fun t => intsOf ':' t) with
+  | [[a1, a2], [b1, b2], [c1, c2], [d1, d2]] =>
+    match find ⟨⟨a1, a2⟩, ⟨b1, b2⟩, ⟨c1, c2⟩, ⟨d1, d2⟩⟩ with
+    | none => "err value"
+    | some m => s!"ok g={showWord m}"
+  | _ => "err value"
 
 def dispatch (cmd : String) (a : Args) : Option String :=
   match cmd with
+  | "cliff.simplify" => some (simplifyCmd a)
+  | "cliff.all24" => some all24Cmd
+  | "cliff.find" => some (findCmd a)
   | _ => none
 
 end Graphiq.CmdCliff
